@@ -761,7 +761,13 @@ func (d *headerParamDecoder) DecodeArray(param string, sm *openapi3.Serializatio
 		return nil, ok, nil
 	}
 
-	val, err := parseArray(strings.Split(raw[0], ","), schema)
+	// (the members of a list-valued header field may be surrounded by optional whitespace,
+	// RFC 7230 section 7: `X-List: 1, 2`)
+	items := strings.Split(raw[0], ",")
+	for i := range items {
+		items[i] = strings.TrimSpace(items[i])
+	}
+	val, err := parseArray(items, schema)
 	return val, ok, err
 }
 
